@@ -14,6 +14,7 @@ mod gpos_raw;
 mod gsub_path;
 mod public_path;
 mod tables_path;
+mod writer_path;
 
 use rayon::prelude::*;
 use serde_json::{json, Value};
@@ -724,6 +725,8 @@ fn body(run: &Run, replay: Option<&Value>) {
             gsub_path::replay(run, case);
         } else if case["family"] == "table" {
             tables_path::replay(run, case);
+        } else if case["family"] == "writer" {
+            writer_path::replay(run, case);
         } else {
             public_path::replay(run, case);
         }
@@ -745,6 +748,7 @@ fn body(run: &Run, replay: Option<&Value>) {
         public_path::run_all(run);
         gsub_path::run_all(run);
         tables_path::run_all(run);
+        writer_path::run_all(run);
         return;
     }
     let quick = run.tier == Tier::Quick;
@@ -905,4 +909,5 @@ fn body(run: &Run, replay: Option<&Value>) {
     public_path::run_all(run);
     gsub_path::run_all(run);
     tables_path::run_all(run);
+    writer_path::run_all(run);
 }
